@@ -1511,7 +1511,7 @@ def rule_zd1(ctx):
 
     def zero_test(e, d):
         for x in ast.walk(e):
-            if isinstance(x, ast.Name) and x.id in d and x is not e:
+            if isinstance(x, ast.Name) and x.id in d:
                 if zero_test(d[x.id], {}):
                     return True
             if isinstance(x, ast.Compare) and any(
@@ -1639,3 +1639,80 @@ def rule_eigh1(ctx):
                 "W^T no longer match (the (4,4,4), (7,7,7) and (oo,oo,oo) "
                 "triangle groups stop satisfying their relations after "
                 "diagonalisation)", instance=inst)
+
+
+# ---------------------------------------------------------------------------
+def rule_bfs2(ctx):
+    r = ctx.r
+    r.rule("BFS2", "automaton_multiple adds every k-letter edge once: either "
+                   "add_edges keeps its redundancy check, or every vertex is "
+                   "provably expanded once (marked when it is queued AND the "
+                   "initially queued start vertices are marked before the "
+                   "loop). Otherwise a start vertex that lies on a cycle of "
+                   "length k is expanded twice and its edges -- hence every "
+                   "accepted word through them -- are duplicated")
+    f = ctx.p.get_function(FSA, "FSA.automaton_multiple")
+    r.analysed(f)
+    q = init = None
+    for n in ast.walk(f.node):
+        if isinstance(n, ast.Assign) and isinstance(n.value, ast.Call) \
+                and dotted(n.value.func) in ("deque", "collections.deque"):
+            q = dotted(n.targets[0])
+            init = n.value.args[0] if n.value.args else None
+    loop = next((n for n in ast.walk(f.node) if isinstance(n, ast.While)),
+                None)
+    if q is None or loop is None:
+        r.note("BFS2", loc(f, f.node), "automaton_multiple",
+               "worklist idiom not recognised (not judged)")
+        return
+    popped = None
+    for n in ast.walk(loop):
+        if isinstance(n, ast.Assign) and isinstance(n.value, ast.Call) \
+                and isinstance(n.value.func, ast.Attribute) \
+                and dotted(n.value.func.value) == q \
+                and n.value.func.attr in ("popleft", "pop"):
+            popped = dotted(n.targets[0])
+    marks = [n for n in ast.walk(f.node) if isinstance(n, ast.Assign)
+             and isinstance(n.targets[0], ast.Subscript)
+             and isinstance(n.value, ast.Constant) and n.value.value is True]
+    mark_names = {dotted(n.targets[0].value) for n in marks}
+    at_dequeue = [n for n in marks if dotted(n.targets[0].slice) == popped
+                  and n.lineno >= loop.lineno]
+    appended = {dotted(c.args[0]) for c in ast.walk(loop)
+                if isinstance(c, ast.Call) and isinstance(
+                    c.func, ast.Attribute) and dotted(c.func.value) == q
+                and c.func.attr in ("append", "extend") and c.args}
+    at_enqueue = [n for n in marks if dotted(n.targets[0].slice) in appended
+                  and n.lineno >= loop.lineno]
+    init_marked = any(n.lineno < loop.lineno for n in marks) or any(
+        isinstance(n, ast.Assign) and dotted(n.targets[0]) in mark_names
+        and isinstance(n.value, (ast.DictComp, ast.Dict))
+        and "True" in ast.unparse(n.value) and n.lineno < loop.lineno
+        for n in ast.walk(f.node))
+    expanded_once = bool(at_enqueue) and init_marked
+    unchecked = [c for c in ast.walk(f.node) if isinstance(c, ast.Call)
+                 and isinstance(c.func, ast.Attribute)
+                 and c.func.attr == "add_edges" and any(
+                     k.arg == "ignore_redundant" and isinstance(
+                         k.value, ast.Constant) and k.value.value is False
+                     for k in c.keywords)]
+    if not unchecked:
+        r.ok("BFS2", "automaton_multiple", loc(f, loop), "",
+             "add_edges keeps its redundancy check")
+    elif expanded_once:
+        r.ok("BFS2", "automaton_multiple", loc(f, loop), "",
+             "vertices are marked when queued, start vertices before the "
+             "loop: each is expanded once")
+    else:
+        c = unchecked[0]
+        r.violation(
+            "BFS2", f"{f.fq}|unchecked-duplicates", loc(f, c),
+            dotted(c)[:140],
+            "edges are added with ignore_redundant=False, but a vertex can "
+            "be expanded more than once ("
+            + ("marks are set when a vertex is queued, yet the start "
+               "vertices are queued unmarked" if at_enqueue else
+               "a vertex is only marked when it is taken from the queue, so "
+               "it can be queued twice") + "): for {0: {'a': 0}} with k = 2 "
+            "the loop edge is stored twice and automaton_accepted returns "
+            "every word twice", instance="automaton_multiple")
